@@ -180,7 +180,12 @@ fn buffer_edge_family(g: &mut G, ctx: &RunCtx) -> RunReport {
         used += format!("{:x}", w1).len() + 2 + w1 + 2;
         ops.push(WOp::Write(crate::gen::gen_bytes(w1, 0, 7)));
     }
-    let spare_after = g.below(4) as usize; // octets left in the buffer after size line and data
+    // octets left in the buffer after size line and data: 0..3 (the chunk's own CRLF does not fit), or - every
+    // second plan - a little more, so that the *next* piece (a small gathered write) is the one that runs into
+    // the edge, inside one of its slices
+    let gather_next = g.chance(1, 2);
+    let small: usize = *g.pick(&[6usize, 102, 402, 998]);
+    let spare_after = if gather_next { 2 + 4 + 1 + g.usize_below(small.min(200)) } else { g.below(4) as usize };
     let mut l = 8192 - spare_after - used - 2 - 3; // first guess: three hex digits
     while used + format!("{:x}", l).len() + 2 + l < 8192 - spare_after {
         l += 1;
@@ -190,6 +195,11 @@ fn buffer_edge_family(g: &mut G, ctx: &RunCtx) -> RunReport {
     }
     let aligned = crate::gen::gen_bytes(l, 1, 11);
     ops.push(if g.chance(1, 2) { WOp::Write(aligned) } else { WOp::WriteAll(aligned) });
+    if gather_next {
+        // length = 2 modulo 4: the scripted body sends it as one write_vectored of three slices
+        ops.push(WOp::WriteAll(crate::gen::gen_bytes(small, 0, 17)));
+        g.probe("gathered-write-runs-into-the-edge-of-the-write-buffer");
+    }
     for _ in 0..g.below(3) {
         let n = *g.pick(&[0usize, 1, 5, 8190, 8192, 100]);
         ops.push(match g.below(3) {
